@@ -487,6 +487,7 @@ pub fn c14(rng: &mut Rng, thorough: bool, idx: u64) -> Spec {
         extra.pools.push(pool_on("db3", &["pg-db3-p"], 2, "transaction"));
         hosts.extend(extra.hosts());
     }
+    let double_reload = trigger == "RELOAD" && variant != "add_pool_server_down" && rng.chance(0.25);
     let t_file = rng.range(60, 250);
     let t_reload = t_file + rng.range(5, 60);
     let mut actions = vec![ActionSpec { at: When::AtMs { ms: t_file }, act: Action::SetFile { kind: file_kind.into(), content: new_content.clone() } }];
@@ -496,7 +497,14 @@ pub fn c14(rng: &mut Rng, thorough: bool, idx: u64) -> Spec {
     match trigger {
         "RELOAD" => {
             admin_steps.push(Step::Emit { ev: "reload_begin".into() });
+            if double_reload {
+                // the operator's RELOAD and a SIGHUP at the same moment: two reloads in flight
+                actions.push(ActionSpec { at: When::After { ev: "reload_begin".into(), delay_ms: 0 }, act: Action::Signal { sig: "HUP".into() } });
+            }
             admin_steps.push(q("RELOAD".into(), 0));
+            if double_reload {
+                admin_steps.push(Step::Think { ms: 150 });
+            }
             admin_steps.push(Step::Emit { ev: "reloaded".into() });
         }
         "HUP" => {
@@ -511,6 +519,7 @@ pub fn c14(rng: &mut Rng, thorough: bool, idx: u64) -> Spec {
             admin_steps.push(Step::Wait { ev: "reloaded".into() });
         }
     }
+    let _ = double_reload;
     let mut admin2_needed = false;
     if trigger == "RELOAD" && !valid {
         // PgCat drops the admin connection when the reload fails: look again from a new one
